@@ -73,6 +73,22 @@ CHECKS = {
         note="Assumed: Python bytes ordering on equal lengths is big-endian numeric order (A-LEX); int.from_bytes / "
              "to_bytes are inverse on range (A-STRUCT); hashes are functions (A-HASH).",
         technique=PROOF_TECH),
+    'C08': dict(
+        category='exploration', design_ref='6/C08',
+        text="BOUNDED (exploration, not counted as proved): the real BlockStore on real sqlite files - block trees on top of "
+             "the built-in genesis (line with multi-input/multi-output signed spends, fork with both branches continuing, "
+             "a reorganisation, three siblings, and the same pending transaction in blocks of two forks), written in "
+             "several batchings of flushes, the file re-opened by a NEW BlockStore after every flush: exactly the blocks "
+             "written, under the same ids, byte-identical, every parent before its children, and the ledger rebuilt from "
+             "the store has the same unspent set at every block as the in-memory state. Alongside (structural scans of the "
+             "real source, lemma C08.columns): every field below Block is written to a column and read back into the same "
+             "constructor argument, each INSERT's arity equals its table's column count, one BEGIN..COMMIT per flush.",
+        note="sqlite itself is assumed (A-SQL). Known finding (recorded, not repaired): when two stored fork blocks contain "
+             "the same transaction, the second reads back without it (transaction_locator is keyed by the transaction id "
+             "alone + INSERT OR IGNORE); the check prints KNOWN-FINDING for exactly that case and reports any other "
+             "difference as a violation. No contract within reach expresses sqlite's semantics, so no proof is claimed.",
+        technique="bounded run-time evaluation of the real store against an in-memory reference (stated bound) + structural "
+                  "scan obligations over the real source"),
     'C09': dict(
         category='proof', design_ref='6/C09',
         text="ConnectedRemotePeer.handle_block_received is verified path by path (from source, callee contracts for the "
@@ -210,6 +226,27 @@ CHECKS = {
              "real chain. Below the horizon the node skips in-chain validation by design; that is not part of the claim.",
         technique=PROOF_TECH + "; branch post-condition over a constant table + run-time evaluation of the real validators "
                   "on the recorded blocks with real scrypt"),
+    'C19': dict(
+        category='exploration', design_ref='6/C19',
+        text="PROOF (all inputs): DisconnectedRemotePeer.is_time_to_connect returns True only if the number of consecutive "
+             "failures k is at most 2880 and, when there was an earlier attempt, at least min(10 s * 2^k, 30 min) - spelled "
+             "out as 10, 20, 40, ..., 1280, 1800 - have passed since it, and it does return True then (for every k, clock "
+             "and attempt time; the power with a symbolic exponent is exact below 2^64 and bounded from below above). "
+             "Structural scans of the real source (lemma C19.book-writers): the two maps are written only by the five known "
+             "functions; announced / greeted peers are entered into the waiting map only under `key not in "
+             "connected_peers`; the connect handler removes the key from the waiting map right after entering it, the "
+             "disconnect handler removes it from the connected map before entering it; step() starts an outgoing "
+             "connection only for an OUTGOING peer whose address is not this node's own and for which is_time_to_connect "
+             "holds, after recording the attempt time. BOUNDED (exploration): random event sequences on the real "
+             "NetworkManager / LocalPeer / ConnectedRemotePeer with a virtual clock (book disjoint after every event, "
+             "nothing escapes, observed retries respect the schedule and the limit, self-connection dropped and not "
+             "retried), is_time_to_connect on every failure count around every threshold, write_peers with simulated "
+             "crashes (valid JSON, <= 100 entries, most recent first, old-or-new file).",
+        note="The recorded level is the weaker one: the sentence about arbitrary event sequences is carried by the bounded "
+             "run and the scans, not by a proved invariant (the two maps hold mutable peer objects that alias the handlers' "
+             "arguments; the executor's heap shapes are trees, so the map-of-objects invariant is outside its reach). "
+             "Sockets and the selector are inert stand-ins in the bounded process (A-SOCK).",
+        technique=PROOF_TECH + " for the back-off predicate; structural scan obligations; bounded event-sequence exploration"),
     'C20': dict(
         category='proof', design_ref='6/C20',
         text="Exceptional post-condition, proved from source: no exception of any class escapes "
